@@ -211,6 +211,275 @@ theorem call_runs_body {σ ν : Type} (tbl : Table (Method σ ν)) (name : Name)
     · exact hr.symm
   · rfl
 
+
+/-! ## gating: while shutting down or restarting -/
+
+theorem updateFault_eq {σ ν : Type} : ∃ c, faultCode "SHUTDOWN_STATE" = some c ∧ (updateFault : Outcome σ ν) = .fault c :=
+  ⟨6, by decide, by simp [updateFault, updateRaises, raiseFault, faultCode, faults, List.lookup]⟩
+
+theorem iterLeaf_gated {σ ν : Type} (g : Option Gate) (hg : isGated g = true) (mood : Int) (hm : mood < moodRunning)
+    (body : σ → Outcome σ ν × σ) (n : Nat) (s : σ) : iterLeaf g mood body n s = s := by
+  induction n generalizing s with
+  | zero => rfl
+  | succ n ih => simp [iterLeaf, runLeaf, hg, update_g0, hm, ih]
+
+/-- a method whose table row is `gateOk` answers SHUTDOWN_STATE and leaves the state untouched when
+    the mood is below RUNNING — whatever its body and its leaves' bodies are -/
+theorem gated_answers_shutdown {σ ν : Type} (g : Gate) (hg : gateOk g = true) (mood : Int) (hm : mood < moodRunning)
+    (nLeaf : Nat) (leafBody body : σ → Outcome σ ν × σ) (s : σ) :
+    ∃ c, faultCode "SHUTDOWN_STATE" = some c ∧ runGated g mood nLeaf leafBody body s = (.fault c, s) := by
+  obtain ⟨c, hc, hu⟩ := updateFault_eq (σ := σ) (ν := ν)
+  refine ⟨c, hc, ?_⟩
+  cases g with
+  | first => simp [runGated, update_g0, hm, hu]
+  | afterPure => simp [runGated, update_g0, hm, hu]
+  | viaLeaf l =>
+    simp only [gateOk] at hg
+    simp [runGated, update_g0, hm, hu, iterLeaf_gated _ hg mood hm]
+  | none => simp [gateOk] at hg
+
+/-- the generated table: every method of docs/api.rst's "Process Control" section (process control
+    and configuration: start/stop/signal*, sendProcessStdin, reloadConfig, add/removeProcessGroup,
+    the info methods) except sendRemoteCommEvent is gated; so is every method of the "Status and
+    Control" and "Process Logging" sections, and every public attribute of the class (aliases
+    included) except sendRemoteCommEvent -/
+theorem gating_table_ok :
+    (∀ name ∈ docProcessControlMethods, name ≠ "sendRemoteCommEvent" →
+       ∃ g, gateTable.lookup name = some g ∧ gateOk g = true) ∧
+    (∀ name ∈ docStatusMethods ++ docLoggingMethods, ∃ g, gateTable.lookup name = some g ∧ gateOk g = true) ∧
+    (∀ row ∈ gateTable, row.1 ≠ "sendRemoteCommEvent" → gateOk row.2 = true) := by
+  decide
+
+/-- **gating (partial).**  Full statement: for every `name ∈ docProcessControlMethods`, mood below
+    RUNNING ⇒ the answer is SHUTDOWN_STATE and nothing changes.  It fails for exactly one
+    method, `sendRemoteCommEvent`, which never calls `_update` (finding F27, counterexample below);
+    the hypothesis `name ≠ "sendRemoteCommEvent"` excludes it. -/
+theorem gating_partial {σ ν : Type} (name : String) (hn : name ∈ docProcessControlMethods)
+    (hx : name ≠ "sendRemoteCommEvent") (mood : Int) (hm : mood < moodRunning)
+    (nLeaf : Nat) (leafBody body : σ → Outcome σ ν × σ) (s : σ) :
+    ∃ g c, gateTable.lookup name = some g ∧ faultCode "SHUTDOWN_STATE" = some c ∧
+      runGated g mood nLeaf leafBody body s = (.fault c, s) := by
+  obtain ⟨g, hl, hg⟩ := gating_table_ok.1 name hn hx
+  obtain ⟨c, hc, hr⟩ := gated_answers_shutdown g hg mood hm nLeaf leafBody body s
+  exact ⟨g, c, hl, hc, hr⟩
+
+/-- the methods of the other two documented sections are gated without exception -/
+theorem gating_status_logging {σ ν : Type} (name : String) (hn : name ∈ docStatusMethods ++ docLoggingMethods)
+    (mood : Int) (hm : mood < moodRunning) (nLeaf : Nat) (leafBody body : σ → Outcome σ ν × σ) (s : σ) :
+    ∃ g c, gateTable.lookup name = some g ∧ faultCode "SHUTDOWN_STATE" = some c ∧
+      runGated g mood nLeaf leafBody body s = (.fault c, s) := by
+  obtain ⟨g, hl, hg⟩ := gating_table_ok.2.1 name hn
+  obtain ⟨c, hc, hr⟩ := gated_answers_shutdown g hg mood hm nLeaf leafBody body s
+  exact ⟨g, c, hl, hc, hr⟩
+
+/-- F27: sendRemoteCommEvent is listed under "Process Control", has no gate, and its body runs in
+    every mood -/
+theorem gating_sendRemoteCommEvent_counterexample :
+    "sendRemoteCommEvent" ∈ docProcessControlMethods ∧ gateTable.lookup "sendRemoteCommEvent" = some Gate.none ∧
+    ∀ (mood : Int) (body : Nat → Outcome Nat Nat × Nat) (s : Nat), runGated Gate.none mood 0 body body s = body s :=
+  ⟨by decide, by decide, fun _ _ _ => rfl⟩
+
+/-- RUNNING and FATAL moods pass the gate; SHUTDOWN and RESTARTING are the moods below RUNNING -/
+theorem moods_below_running : (moods.filter fun m => decide (m.2 < moodRunning)).map (·.1) = ["SHUTDOWN", "RESTARTING"] := by
+  decide
+
+example : ∃ name, name ∈ docProcessControlMethods ∧ name ≠ "sendRemoteCommEvent" := ⟨"startProcess", by decide, by decide⟩
+example : (runGated Gate.first 0 0 (fun s => (.value 0, s + 1)) (fun s => (Outcome.value (σ := Nat) 0, s + 1)) 5).2 = 5 := by decide
+example : (runGated Gate.first 1 0 (fun s => (.value 0, s + 1)) (fun s => (Outcome.value (σ := Nat) 0, s + 1)) 5).2 = 6 := by decide
+example : (runGated (Gate.viaLeaf "signalProcess") 0 3 (fun s => (.value 0, s + 1)) (fun s => (Outcome.value (σ := Nat) 0, s + 1)) 5).2 = 5 := by
+  decide
+
+/-! ## fault codes -/
+
+/-- every fault name constructed statically anywhere in the two modules -/
+def allRaised : List String :=
+  raisesTable.flatMap (·.2) ++ helperRaises ++ updateRaises ++ traverseRaises ++ multicallRefused.flatMap (·.2)
+
+/-- **fault_codes_documented.**  Every `RPCError(Faults.X)` in rpcinterface.py and xmlrpc.py names a
+    constant of the `Faults` table; the only dynamic lookup is `getattr(Faults, why)` and every
+    text options.readFile can raise is a constant of the table; the names the models use
+    literally are constants too.  So every fault a modelled call answers carries a code of the table. -/
+theorem fault_codes_documented :
+    (∀ n ∈ allRaised, n = "?getattr(Faults, why)" ∨ (faultCode n).isSome = true) ∧
+    (∀ n ∈ readFileRaises, (faultCode n).isSome = true) ∧
+    (∀ n ∈ ["UNKNOWN_METHOD", "INCORRECT_PARAMETERS", "SHUTDOWN_STATE", "NO_FILE", "BAD_NAME", "BAD_ARGUMENTS", "FAILED"],
+        (faultCode n).isSome = true) := by
+  decide
+
+/-- a code determines its constant -/
+theorem faults_distinct : (faults.map (·.2)).Nodup ∧ (faults.map (·.1)).Nodup := by decide
+
+/-! ## system.multicall -/
+
+section multicall
+variable {σ ν : Type} (tbl : Table (Method σ ν)) (env : Nat → σ → σ)
+
+/-- what `results` gets for an outcome that is not deferred -/
+def elemOf : Outcome σ ν → Option (Elem ν)
+  | .value v => some (.val v)
+  | .fault c => some (elemOfFault c)
+  | .raised _ => some elemOfRaised
+  | .deferred _ => none
+
+theorem multi_none (calls : List (MCall ν)) (acc : List (Elem ν)) (s : σ) :
+    multi tbl ⟨calls, none, acc⟩ s = startCalls tbl calls acc s := by
+  simp [multi, pollPending]
+
+theorem drive_succ (f k : Nat) (m : MC σ ν) (s : σ) :
+    drive tbl env (f + 1) k m s =
+      if finished (multi tbl m s).1 then some ((multi tbl m s).1.results, (multi tbl m s).2)
+      else drive tbl env f (k + 1) (multi tbl m s).1 (env k (multi tbl m s).2) := rfl
+
+/-- the pending-callback clause of the specification -/
+def Q (f : Nat) : Prop :=
+  ∀ (rest : List (MCall ν)) (cb : Cb σ ν) (k : Nat) (acc : List (Elem ν)) (s : σ),
+    drive tbl env f k ⟨rest, some cb, acc⟩ s =
+      (waitCb env f k cb s).bind fun r =>
+        (seq tbl env rest (f - r.2.2) (k + r.2.2) r.2.1).map fun q => (acc ++ r.1 :: q.1, q.2)
+
+theorem L1_of_Q (f : Nat) (hQ : Q tbl env f) :
+    ∀ (calls : List (MCall ν)) (k : Nat) (acc : List (Elem ν)) (s : σ),
+      drive tbl env (f + 1) k ⟨calls, none, acc⟩ s =
+        (seq tbl env calls (f + 1) k s).map fun q => (acc ++ q.1, q.2) := by
+  intro calls
+  induction calls with
+  | nil =>
+    intro k acc s
+    simp [drive_succ, multi_none, startCalls, finished, seq]
+  | cons c rest ih =>
+    intro k acc s
+    have hI : ∀ (e : Elem ν) (s1 : σ), startCalls tbl (c :: rest) acc s = startCalls tbl rest (acc ++ [e]) s1 →
+        single tbl env (f + 1) k c s = some (e, s1, 0) →
+        drive tbl env (f + 1) k ⟨c :: rest, none, acc⟩ s =
+          (seq tbl env (c :: rest) (f + 1) k s).map fun q => (acc ++ q.1, q.2) := by
+      intro e s1 h1 h2
+      have := ih k (acc ++ [e]) s1
+      rw [drive_succ, multi_none] at this ⊢
+      rw [h1, this]
+      simp [seq, h2, Option.map_map, Function.comp_def]
+    cases hc : callOne tbl c s with
+    | mk o s1 =>
+      cases o with
+      | value v => exact hI (.val v) s1 (by simp [startCalls, hc]) (by simp [single, hc])
+      | fault code => exact hI (elemOfFault code) s1 (by simp [startCalls, hc]) (by simp [single, hc])
+      | raised w => exact hI elemOfRaised s1 (by simp [startCalls, hc]) (by simp [single, hc])
+      | deferred cb =>
+        rw [drive_succ, multi_none]
+        simp only [startCalls, hc, finished, Option.isNone_some, Bool.false_and, Bool.false_eq_true, if_false]
+        rw [hQ rest cb (k + 1) acc (env k s1)]
+        simp only [seq, single, hc, Nat.add_sub_cancel]
+        cases waitCb env f (k + 1) cb (env k s1) with
+        | none => simp
+        | some r =>
+          simp only [Option.map_some, Option.bind_some]
+          have e1 : f + 1 - (r.2.2 + 1) = f - r.2.2 := by omega
+          have e2 : k + (r.2.2 + 1) = k + 1 + r.2.2 := by omega
+          rw [e1, e2]
+          simp [Option.map_map, Function.comp_def]
+
+theorem Q_zero : Q tbl env 0 := by
+  intro rest cb k acc s
+  simp [drive, waitCb]
+
+theorem Q_succ (f : Nat) (hQ : Q tbl env f) : Q tbl env (f + 1) := by
+  intro rest cb k acc s
+  cases cb with
+  | mk poll =>
+    have hF : ∀ (e : Elem ν) (s1 : σ),
+        multi tbl ⟨rest, some (.mk poll), acc⟩ s = startCalls tbl rest (acc ++ [e]) s1 →
+        waitCb env (f + 1) k (.mk poll) s = some (e, s1, 0) →
+        drive tbl env (f + 1) k ⟨rest, some (.mk poll), acc⟩ s =
+          (waitCb env (f + 1) k (.mk poll) s).bind fun r =>
+            (seq tbl env rest (f + 1 - r.2.2) (k + r.2.2) r.2.1).map fun q => (acc ++ r.1 :: q.1, q.2) := by
+      intro e s1 h1 h2
+      have := L1_of_Q tbl env f hQ rest k (acc ++ [e]) s1
+      rw [drive_succ, multi_none] at this
+      rw [drive_succ, h1, this, h2]
+      simp
+    cases hp : poll s with
+    | again cb' s' =>
+      rw [drive_succ]
+      have hm : multi tbl ⟨rest, some (.mk poll), acc⟩ s = (⟨rest, some cb', acc⟩, s') := by
+        simp [multi, pollPending, hp]
+      rw [hm]
+      simp only [finished, Option.isNone_some, Bool.false_and, Bool.false_eq_true, if_false]
+      rw [hQ rest cb' (k + 1) acc (env k s')]
+      simp only [waitCb, hp]
+      cases waitCb env f (k + 1) cb' (env k s') with
+      | none => simp
+      | some r =>
+        simp only [Option.map_some, Option.bind_some]
+        have e1 : f + 1 - (r.2.2 + 1) = f - r.2.2 := by omega
+        have e2 : k + (r.2.2 + 1) = k + 1 + r.2.2 := by omega
+        rw [e1, e2]
+    | value v s' => exact hF (.val v) s' (by simp [multi, pollPending, hp]) (by simp [waitCb, hp])
+    | fault c s' => exact hF (elemOfFault c) s' (by simp [multi, pollPending, hp]) (by simp [waitCb, hp])
+    | raised w s' => exact hF elemOfRaised s' (by simp [multi, pollPending, hp]) (by simp [waitCb, hp])
+
+theorem Q_all (f : Nat) : Q tbl env f := by
+  induction f with
+  | zero => exact Q_zero tbl env
+  | succ f ih => exact Q_succ tbl env f ih
+
+/-- **multicall_sequential.**  For every attribute table, every list of calls, every behaviour of
+    the deferred callbacks, every schedule `env` of what happens between ticks and every bound
+    `f+1` on the number of ticks: `system.multicall` answers exactly what the same calls made one
+    after another answer (call i+1 is started at the tick at which call i answered), element for
+    element, with the same final state — or both are still unfinished after `f+1` ticks. -/
+theorem multicall_sequential (f : Nat) (calls : List (MCall ν)) (s : σ) :
+    multicall tbl env (f + 1) calls s = seq tbl env calls (f + 1) 0 s := by
+  have := L1_of_Q tbl env f (Q_all tbl env f) calls 0 [] s
+  simpa [multicall] using this
+
+end multicall
+
+/-! ### what a single element is -/
+
+/-- recursion is refused with INCORRECT_PARAMETERS and runs nothing; so is a call without methodName -/
+theorem multicall_recursion_refused {σ ν : Type} (tbl : Table (Method σ ν)) (ps : List ν) (s : σ) :
+    (∃ c, faultCode "INCORRECT_PARAMETERS" = some c ∧
+      callOne tbl ⟨some "system.multicall".toList, ps⟩ s = (.fault c, s) ∧ callOne tbl ⟨none, ps⟩ s = (.fault c, s)) := by
+  refine ⟨2, by decide, ?_, ?_⟩
+  · have : multicallRefused.find? (fun p => p.1.toList == "system.multicall".toList) = some ("system.multicall", ["INCORRECT_PARAMETERS"]) := by
+      decide
+    simp only [callOne]
+    rw [this]
+    simp [raiseFault, faultCode, faults, List.lookup]
+  · simp [callOne, raiseFault, faultCode, faults, List.lookup]
+
+/-- faults become fault structs carrying the fault's code, other exceptions the FAILED struct, values
+    themselves; every other name goes through `traverse` (so `traverse_closed` applies inside multicall) -/
+theorem multicall_elements {σ ν : Type} (tbl : Table (Method σ ν)) (env : Nat → σ → σ) (f k : Nat) (c : MCall ν) (s s' : σ) :
+    (∀ code, callOne tbl c s = (.fault code, s') → single tbl env f k c s = some (.fstruct code, s', 0)) ∧
+    (∀ v, callOne tbl c s = (.value v, s') → single tbl env f k c s = some (.val v, s', 0)) ∧
+    (∀ w, callOne tbl c s = (.raised w, s') → single tbl env f k c s = some (.fstruct 30, s', 0)) ∧
+    (∀ n, c.name = some n → n ≠ "system.multicall".toList → callOne tbl c s = call tbl n c.params s) := by
+  refine ⟨?_, ?_, ?_, ?_⟩
+  · intro code h; simp [single, h, elemOfFault]
+  · intro v h; simp [single, h]
+  · intro w h
+    have : (elemOfRaised : Elem ν) = .fstruct 30 := by
+      simp [elemOfRaised, failedCode, faultCode, faults, List.lookup]
+    simp [single, h, this]
+  · intro n hn hne
+    have : multicallRefused.find? (fun p => p.1.toList == n) = none := by
+      have hb : ("system.multicall".toList == n) = false := by
+        rw [beq_eq_false_iff_ne]; exact fun h => hne h.symm
+      unfold multicallRefused
+      simp only [List.find?_cons, List.find?_nil, hb]
+    simp only [callOne, hn, this]
+
+-- non-vacuity: a deferred call between two immediate ones; the third call starts only after the second answered
+def demoMc : Table (Method Log Int) := tableOf [
+  .attr "s".toList "a".toList (some (0, 0, .fin (.v 1))),
+  .attr "s".toList "d".toList (some (0, 0, .d 2 (.f 10))),
+  .attr "s".toList "b".toList (some (0, 0, .fin (.v 3)))]
+example : multicall demoMc (fun _ x => x) 10
+    [⟨some "s.a".toList, []⟩, ⟨some "s.d".toList, []⟩, ⟨some "system.multicall".toList, []⟩, ⟨some "s.b".toList, []⟩] []
+    = some ([.val 1, .fstruct 10, .fstruct 2, .val 3], ["s.a/0", "s.d/0", "poll:s.d", "poll:s.d", "poll:s.d", "s.b/0"]) := by
+  decide
+example : multicall demoMc (fun _ x => x) 2 [⟨some "s.d".toList, []⟩] [] = none := by decide
+
 -- non-vacuity
 def demoTable : Table (Method Nat Nat) := fun ns =>
   if ns = "supervisor".toList then some fun m =>
